@@ -53,13 +53,6 @@ package cms
 //@ uf sdVerified(ref, ref) bool
 //@ uf poolCountry(ref) seq            // ghost: the country a filtered pool was built for (alpha-2)
 //@ uf poolSource(ref) ref             // ghost: the pool object a filtered pool was built from
-//@ func (sd *SignedData) Verify
-//@   trusted
-//@   requires sd != nil
-//@   ensures err != nil ==> certChain == nil
-//@   ensures fresh(certChain)
-//@   defines err == nil ==> sdVerified(ref(sd), ref(trustedCerts))
-//@   assigns nothing
 //@ func (p CertPool) ByIssuerCountry(countryAlpha2 string) (result []Certificate)
 //@   trusted
 //@   requires p != nil
@@ -79,3 +72,270 @@ package cms
 //@   requires certPool != nil
 //@   ensures result == len(certPool.certificates)
 //@   pure
+
+// ---------------------------------------------------------------- C01: certificate and signer decision logic
+// The ASN.1 decoding of extensions, times, attributes and the signature primitives are trusted boundaries named by
+// uninterpreted functions; the DECISIONS built on them are verified:
+//   extUnrecCrit / extHasBC / extIsCA / extPathLen / extHasKU / extKuBit / extHasEKU / extEkuCritical / extEkuAny / extAki
+//     - facts about an extension list (identified by the list object), timeOf(bytes) - the instant of an ASN.1 time,
+//   sigOK(spki, digestAlg, digest, sigAlg, sig) - the signature primitive accepts (cms.VerifySignature),
+//   digestAlgOfSig(sigAlg) - digest algorithm of a signature algorithm identifier.
+//@ uf extUnrecCrit(ref) bool
+//@ uf extHasBC(ref) bool
+//@ uf extIsCA(ref) bool
+//@ uf extPathLen(ref) int
+//@ uf extHasKU(ref) bool
+//@ uf extKuBit(ref, int) bool
+//@ uf kuSrc(ref) ref
+//@ uf extHasEKU(ref) bool
+//@ uf extEkuCritical(ref) bool
+//@ uf extEkuAny(ref) bool
+//@ uf ekuSrc(ref) ref
+//@ uf extHasAki(ref) bool
+//@ uf extAki(ref) seq
+//@ uf timeOf(ref) int               // instant encoded by the ASN.1 time stored in this buffer
+//@ uf sigOK(ref, ref, ref, ref, ref) bool   // the signature primitive accepted (key info, digest alg, digest, signature alg, signature) - buffers identified by their backing arrays, which are never written after parsing
+//@ uf digestAlgOfSig(seq) seq
+//@ uf bySkiFrom(ref) ref
+//@ uf bySkiKey(ref) seq
+
+//@ func (extensions Extensions) UnrecognizedCriticalExtensions
+//@   trusted
+//@   ensures (len(result) > 0) == extUnrecCrit(ref(extensions))
+//@   ensures fresh(result)
+//@   assigns nothing
+//@ func (extensions Extensions) BasicConstraints
+//@   trusted
+//@   ensures result1 == nil ==> (result0 != nil) == extHasBC(ref(extensions))
+//@   ensures result1 == nil && result0 != nil ==> result0.IsCA == extIsCA(ref(extensions)) && result0.MaxPathLen == extPathLen(ref(extensions))
+//@   ensures result1 != nil ==> result0 == nil
+//@   ensures fresh(result0)
+//@   assigns nothing
+//@ func (extensions Extensions) KeyUsage
+//@   trusted
+//@   ensures result1 == nil ==> (result0 != nil) == extHasKU(ref(extensions))
+//@   ensures result1 != nil ==> result0 == nil
+//@   ensures fresh(result0)
+//@   defines result0 != nil ==> kuSrc(ref(result0.Bytes)) == ref(extensions)
+//@   assigns nothing
+//@ func (ku KeyUsage) HasBit
+//@   trusted
+//@   ensures result == extKuBit(kuSrc(ref(ku.Bytes)), bit)
+//@   pure
+//@ func (extensions Extensions) ExtKeyUsage
+//@   trusted
+//@   ensures result1 == nil ==> (result0 != nil) == extHasEKU(ref(extensions))
+//@   ensures result1 != nil ==> result0 == nil
+//@   ensures fresh(result0)
+//@   defines result0 != nil ==> ekuSrc(ref(result0)) == ref(extensions)
+//@   assigns nothing
+//@ func (eku ExtKeyUsage) HasOID
+//@   trusted
+//@   ensures result == extEkuAny(ekuSrc(ref(eku)))
+//@   pure
+//@ func (extensions Extensions) ExtKeyUsageIsCritical
+//@   trusted
+//@   ensures result == extEkuCritical(ref(extensions))
+//@   pure
+//@ func (extensions Extensions) AuthorityKeyIdentifier
+//@   trusted
+//@   ensures result1 == nil ==> (result0 != nil) == extHasAki(ref(extensions))
+//@   ensures result1 == nil && result0 != nil ==> result0.KeyIdentifier === extAki(ref(extensions))
+//@   ensures result1 != nil ==> result0 == nil
+//@   ensures fresh(result0)
+//@   assigns nothing
+//@ func (v Validity) Parse
+//@   trusted
+//@   ensures err == nil ==> notBefore.t == timeOf(ref(v.NotBefore.FullBytes)) && notAfter.t == timeOf(ref(v.NotAfter.FullBytes))
+//@   assigns nothing
+//@ func VerifySignature
+//@   trusted
+//@   ensures (result == nil) == sigOK(ref(pubKeyInfo), ref(digestAlg), ref(digest), ref(sigAlg), ref(sig))
+//@   assigns nothing
+//@ func (signature AlgorithmIdentifier) DetermineDigestAlgFromSigAlgWithConfig
+//@   trusted
+//@   ensures result1 == nil ==> result0 != nil && *result0 === digestAlgOfSig(signature.Algorithm) && allocated(*result0)
+//@   ensures result1 != nil ==> result0 == nil
+//@   ensures fresh(result0)
+//@   assigns nothing
+//@ func (h CryptoHasher) CryptoHashByOid(oid asn1.ObjectIdentifier, data []byte) (result []byte, err error)
+//@   trusted
+//@   requires h != nil
+//@   ensures err == nil ==> result === hashF(hashAlgOfOid(oid), data)
+//@   ensures err != nil ==> result == nil
+//@   ensures fresh(result)
+//@   assigns nothing
+//@ func (p CertPool) BySKI(ski []byte) (result []Certificate)
+//@   trusted
+//@   requires p != nil
+//@   ensures fresh(result)
+//@   defines bySkiFrom(ref(result)) == ref(p) && seqid(bySkiKey(ref(result)), ski)
+//@   assigns nothing
+
+// validity window of a certificate at the reference (signing) time; no reference time means the check is skipped
+//@ pred inValidity(v Validity, refTime *time.Time) { refTime == nil || (timeOf(ref(v.NotBefore.FullBytes)) <= refTime.t && refTime.t <= timeOf(ref(v.NotAfter.FullBytes))) }
+//@ func checkValidityPeriod
+//@   props C01 C12
+//@   ensures "inside-the-validity-window-at-the-reference-time": result == nil ==> inValidity(validity, refTime)
+//@   assigns nothing
+//@   safety all
+//@ func checkParentValidityPeriod
+//@   props C01 C12
+//@   ensures "inside-the-validity-window-at-the-reference-time": result == nil ==> inValidity(validity, refTime)
+//@   assigns nothing
+//@   safety all
+
+// document signer certificate: no unrecognized critical extension, keyUsage present with digitalSignature (bit 0)
+//@ pred dsExtOK(cert *Certificate) { !extUnrecCrit(ref(cert.TbsCertificate.Extensions)) && extHasKU(ref(cert.TbsCertificate.Extensions)) && extKuBit(ref(cert.TbsCertificate.Extensions), 0) }
+//@ func validateDSCertExtensions
+//@   props C01 C12
+//@   requires cert != nil
+//@   ensures "ds-certificate-usage": result == nil ==> dsExtOK(cert)
+//@   assigns nothing
+//@   safety all
+
+// one chain step: the candidate is a CA (basicConstraints CA, keyCertSign bit 5, path length not exceeded, a critical EKU
+// must contain anyExtendedKeyUsage, no unrecognized critical extension), valid at the reference time, and its key verifies
+// the certificate's signature over the given digest.
+//@ pred caCertOKv(parent Certificate, refTime *time.Time) { !extUnrecCrit(ref(parent.TbsCertificate.Extensions))
+//@        && extHasBC(ref(parent.TbsCertificate.Extensions)) && extIsCA(ref(parent.TbsCertificate.Extensions))
+//@        && extHasKU(ref(parent.TbsCertificate.Extensions)) && extKuBit(ref(parent.TbsCertificate.Extensions), 5)
+//@        && (extHasEKU(ref(parent.TbsCertificate.Extensions)) && extEkuCritical(ref(parent.TbsCertificate.Extensions)) ==> extEkuAny(ref(parent.TbsCertificate.Extensions)))
+//@        && inValidity(parent.TbsCertificate.Validity, refTime) }
+//@ pred caCertOK(parent *Certificate, refTime *time.Time) { caCertOKv(*parent, refTime) }
+//@ func verifyParentCandidate
+//@   props C01 C12
+//@   requires config != nil && cert != nil && parent != nil && certDigestAlg != nil
+//@   ensures "candidate-is-an-eligible-ca-valid-at-the-reference-time": result == nil ==> caCertOK(parent, config.ReferenceTime)
+//@   ensures "candidate-key-verifies-the-certificate-signature": result == nil ==>
+//@        sigOK(ref(parent.TbsCertificate.SubjectPublicKeyInfo.FullBytes), ref(*certDigestAlg), ref(certDigest), ref(cert.SignatureAlgorithm.Algorithm), ref(cert.SignatureValue.Bytes))
+//@   assigns nothing
+//@   safety all
+
+// chain: the certificate itself has no unrecognized critical extension and is valid at the reference time; its authority
+// key identifier selects candidates from the trusted pool (BySKI), and one of them passed verifyParentCandidate for the
+// digest of the certificate's TBS bytes under the digest algorithm of its signature algorithm.
+// certAnchored(cert, pool): ghost name for "Certificate.VerifyWithConfig accepted cert against pool".
+//@ uf certAnchored(ref, ref) bool
+//@ func (cert *Certificate) VerifyWithConfig
+//@   props C01 C12
+//@   requires cert != nil && config != nil && config.Hasher != nil && trustedCerts != nil
+//@   proves "certificate-itself-acceptable": err == nil ==> !extUnrecCrit(ref(cert.TbsCertificate.Extensions)) && inValidity(cert.TbsCertificate.Validity, config.ReferenceTime)
+//@        && extHasAki(ref(cert.TbsCertificate.Extensions))
+//@   proves "digest-of-the-tbs-bytes-under-the-signature-algorithms-digest": err == nil ==> certDigestAlg != nil && *certDigestAlg === digestAlgOfSig(cert.SignatureAlgorithm.Algorithm)
+//@        && certDigest === hashF(hashAlgOfOid(*certDigestAlg), cert.TbsCertificate.Raw)
+//@   proves "parent-from-the-trusted-pool-by-authority-key-identifier": err == nil ==> bySkiFrom(ref(parentCerts)) == ref(trustedCerts)
+//@        && bySkiKey(ref(parentCerts)) === extAki(ref(cert.TbsCertificate.Extensions))
+//@   proves "accepted-parent-is-an-eligible-ca-whose-key-verifies-the-signature": err == nil ==> 0 <= rangeindex1 && rangeindex1 < len(parentCerts)
+//@        && caCertOKv(parentCerts[rangeindex1], config.ReferenceTime)
+//@        && sigOK(ref(parentCerts[rangeindex1].TbsCertificate.SubjectPublicKeyInfo.FullBytes), ref(*certDigestAlg), ref(certDigest), ref(cert.SignatureAlgorithm.Algorithm), ref(cert.SignatureValue.Bytes))
+//@   ensures "chain-reported-only-on-success": err == nil ==> len(certChain) == 1
+//@   defines err == nil ==> certAnchored(ref(cert), ref(trustedCerts))
+//@   loop 1 invariant cert != nil && config != nil && certDigestAlg != nil && len(certChain) == 0
+//@   loop 1 invariant "digest-alg": *certDigestAlg === digestAlgOfSig(cert.SignatureAlgorithm.Algorithm)
+//@   loop 1 invariant "digest": certDigest === hashF(hashAlgOfOid(*certDigestAlg), cert.TbsCertificate.Raw)
+//@   loop 1 invariant "candidates": bySkiFrom(ref(parentCerts)) == ref(trustedCerts) && bySkiKey(ref(parentCerts)) === extAki(ref(cert.TbsCertificate.Extensions))
+//@   loop 1 invariant "own-checks": !extUnrecCrit(ref(cert.TbsCertificate.Extensions)) && inValidity(cert.TbsCertificate.Validity, config.ReferenceTime) && extHasAki(ref(cert.TbsCertificate.Extensions))
+//@   assigns nothing
+//@   safety all
+
+// signed attributes (RFC 5652 5.4): contentType must equal the eContentType, messageDigest must equal the digest of the
+// eContent under the signer's digest algorithm; the signature is then computed over the DER SET OF the attributes.
+// The ASN.1 helpers are trusted: ByOID(oid) returns the attribute of that type (the two lookups in the body name
+// oid.OidContentType and oid.OidMessageDigest), decodedOid / decodedBytes name the decoded attribute value,
+// setOfAttrs(list) the DER SET OF encoding of the attribute list.
+//@ uf attrLookup(ref, ref) ref
+//@ uf setOfAttrs(ref) seq
+//@ uf decodedOid(ref) seq
+//@ uf decodedBytes(ref) seq
+//@ func (attributes AttributeList) ByOID
+//@   trusted
+//@   ensures result != nil ==> allocated(result.Values.Bytes)
+//@   defines result != nil ==> ref(result.Values.Bytes) == attrLookup(ref(attributes), ref(oid))
+//@   assigns nothing
+//@ func (attributes AttributeList) SetOfAsnBytes
+//@   trusted
+//@   ensures result === setOfAttrs(ref(attributes)) && fresh(result)
+//@   assigns nothing
+//@ func asn1decodeOid
+//@   trusted
+//@   ensures result1 == nil ==> result0 === decodedOid(ref(data))
+//@   ensures fresh(result0)
+//@   assigns nothing
+//@ func asn1decodeBytes
+//@   trusted
+//@   ensures result1 == nil ==> result0 === decodedBytes(ref(data))
+//@   ensures fresh(result0)
+//@   assigns nothing
+
+//@ func (si *SignerInfo) prepareVerificationData
+//@   props C01 C12
+//@   requires si != nil && sd != nil && config != nil && config.Hasher != nil
+//@   proves "content-type-attribute-matches-the-econtent-type": err == nil ==> aaContentType != nil && decodedOid(ref(aaContentType.Values.Bytes)) === sd.Content.EContentType
+//@   proves "message-digest-attribute-is-the-digest-of-the-econtent": err == nil ==> aaMessageDigest != nil
+//@        && decodedBytes(ref(aaMessageDigest.Values.Bytes)) === hashF(hashAlgOfOid(si.DigestAlgorithm.Algorithm), sd.Content.EContent)
+//@   ensures "signed-bytes-are-the-der-set-of-the-attributes": err == nil ==> dataToHash === setOfAttrs(ref(si.AuthenticatedAttributes)) && fresh(dataToHash)
+//@   ensures "algorithms-and-signature-of-this-signer": err == nil ==> digestAlg != nil && signatureAlg != nil
+//@        && ref(*digestAlg) == ref(si.DigestAlgorithm.Algorithm) && *digestAlg === si.DigestAlgorithm.Algorithm
+//@        && ref(*signatureAlg) == ref(si.DigestEncryptionAlgorithm.Algorithm) && ref(signature) == ref(si.EncryptedDigest)
+//@   ensures err != nil ==> dataToHash == nil && digestAlg == nil && signatureAlg == nil && signature == nil
+//@   assigns nothing
+//@   safety all
+
+// signer certificate selection (SID matching over the embedded certificates, JMRTD-style single-certificate fallback)
+// parses the embedded certificates with encoding/asn1: trusted boundary; embeddedIn(cert, sd) names "cert is one of the
+// certificates carried in this SignedData".
+//@ uf embeddedIn(ref, ref) bool
+//@ func (si *SignerInfo) selectCertificate
+//@   trusted
+//@   requires si != nil && sd != nil
+//@   ensures (result1 == nil) == (result0 != nil)
+//@   ensures result1 == nil ==> allocated(result0) && allocated(result0.TbsCertificate.Raw) && allocated(result0.SignatureAlgorithm.Algorithm) && allocated(result0.TbsCertificate.SubjectPublicKeyInfo.FullBytes)
+//@   defines result1 == nil ==> embeddedIn(ref(result0), ref(sd))
+//@   assigns nothing
+//@ func (si *SignerInfo) resolveSigningTime
+//@   trusted
+//@   ensures fresh(result)
+//@   assigns nothing
+
+// One signer: accepted only if the signed attributes are consistent with the content (prepareVerificationData), the
+// document signer certificate carried in the SignedData has signing usage and is valid at the reference (signing) time,
+// its key verifies the signature over the digest of the DER SET OF the signed attributes, and it is anchored in the
+// trusted pool by Certificate.VerifyWithConfig. signerAccepted(si, sd, pool): ghost name of that acceptance.
+//@ uf signerAccepted(ref, ref, ref) bool
+//@ func (si *SignerInfo) VerifyWithConfig
+//@   props C01 C12
+//@   requires si != nil && sd != nil && config != nil && config.Hasher != nil && trustedCerts != nil
+//@   proves "signer-certificate-from-the-signed-data-with-signing-usage-and-valid-at-the-reference-time": err == nil ==> cert != nil && embeddedIn(ref(cert), ref(sd))
+//@        && dsExtOK(cert) && inValidity(cert.TbsCertificate.Validity, config.ReferenceTime)
+//@   proves "signature-over-the-digest-of-the-signed-attributes-under-the-signer-certificates-key": err == nil ==>
+//@        digest === hashF(hashAlgOfOid(si.DigestAlgorithm.Algorithm), setOfAttrs(ref(si.AuthenticatedAttributes)))
+//@        && sigOK(ref(cert.TbsCertificate.SubjectPublicKeyInfo.FullBytes), ref(si.DigestAlgorithm.Algorithm), ref(digest), ref(si.DigestEncryptionAlgorithm.Algorithm), ref(si.EncryptedDigest))
+//@   proves "signer-certificate-anchored-in-the-trusted-pool": err == nil ==> certAnchored(ref(cert), ref(trustedCerts))
+//@   ensures "chain-reported-only-on-success": err != nil ==> certChain == nil
+//@   defines err == nil ==> signerAccepted(ref(si), ref(sd), ref(trustedCerts))
+//@   assigns config.ReferenceTime
+//@   safety all
+
+// all signers must be accepted, and there must be at least one
+//@ func (sd *SignedData) VerifyWithConfig
+//@   props C01 C12
+//@   requires sd != nil && config != nil && config.Hasher != nil && trustedCerts != nil
+//@   ensures "at-least-one-signer": err == nil ==> len(sd.SignerInfos) >= 1
+//@   ensures "chain-reported-only-on-success": err != nil ==> certChain == nil
+//@   loop 1 invariant sd != nil && config != nil && config.Hasher != nil && trustedCerts != nil
+//@   assigns config.ReferenceTime
+//@   safety all
+
+//@ func (sd *SignedData) Verify
+//@   props C01 C12
+//@   requires sd != nil && trustedCerts != nil
+//@   ensures err != nil ==> certChain == nil
+//@   defines err == nil ==> sdVerified(ref(sd), ref(trustedCerts))
+//@   assigns nothing
+//@   trustedframe
+//@   safety all
+//@ func NewDefaultCMSConfig
+//@   trusted
+//@   ensures result != nil && fresh(result) && result.Hasher != nil && result.Parser != nil && result.CurveLookup != nil && result.ReferenceTime == nil
+//@   assigns nothing
